@@ -33,7 +33,7 @@ func init() {
 	props["C02"] = &propDef{gen: genC02, rule: "random merge plans (1-4 leaves with differing field sets / chunk modes, optional inner merge, drops nil/empty/partial/all) vs Lean Spec.merge, plus real-vs-real comparison with the survivors rebuilt; non-trivial = >1 input segment and >0 survivors"}
 	props["C03"] = &propDef{gen: genC03, rule: "merge plans as C02; DocumentNumbers(), Count() and every survivor's content vs Lean Spec.merge; non-trivial = some non-empty deletion bitmap"}
 	props["C04"] = &propDef{gen: genC04, rule: "built / merged segments persisted and loaded memory-backed, file-backed and re-loaded; full read script on each vs Lean Spec; non-trivial = segment has documents"}
-	props["C05"] = &propDef{gen: genC05, rule: "iterator scripts (Next/Advance with non-decreasing targets/walk, 8 flag combinations, exclusion nil/empty/partial/all, ReplaceActual) on built (fixed chunk sizes 1-5) and merged (1-hit) segments vs Lean Spec.iterRun; non-trivial = script has an Advance, a non-empty exclusion and a multi-chunk term"}
+	props["C05"] = &propDef{gen: genC05, alsoReuse: true, rule: "iterator scripts (Next/Advance with non-decreasing targets/walk, 8 flag combinations, exclusion nil/empty/partial/all, ReplaceActual) on built (fixed chunk sizes 1-5) and merged (1-hit) segments vs Lean Spec.iterRun; non-trivial = script has an Advance, a non-empty exclusion and a multi-chunk term"}
 	props["C06"] = &propDef{gen: genC06, rule: "stored-field visits in random orders with early stop on built/loaded/merged segments incl. >128 documents, plus a sweep of the size of block 1 across the reused decompression buffer's capacity; non-trivial = more than one 128-document block"}
 	props["C07"] = &propDef{gen: genC07, rule: "doc-value readers on random field subsets/orders, visiting forwards, backwards, randomly and ping-pong across 1024-document chunk edges; non-trivial = more than one doc-value chunk, or a small merged/built case with documents"}
 	props["C08"] = &propDef{gen: genC08, alsoReuse: true, rule: "dictionary iterators with nil/non-empty [start,end) bounds and any/prefix automata, Contains and PostingsList on built and merged (1-hit mixed) segments, unknown fields and terms; non-trivial = merged segment with >1 document"}
@@ -41,7 +41,7 @@ func init() {
 	props["C13"] = &propDef{gen: genC13, reuse: true, rule: "lookup sequences over three segments (general and 1-hit encodings) where each lookup receives an earlier PostingsList / PostingsIterator as prealloc (none / most recent / random earlier) and dictionaries and doc-value readers are kept across lookups; transcript vs Lean Spec (= fresh objects)"}
 	props["C16"] = &propDef{gen: genC16, rule: "CollectionStats of every known, unknown and empty field name on built, merged, loaded segments with Length = Σ freq; vs Lean Spec.stats; non-trivial = merged with survivors"}
 	props["C17"] = &propDef{gen: genC17, rule: "2-4 leaves with drops: flat merge vs every prefix grouping (drops in the inner merge, or translated through its document numbers), suffix grouping, single-segment identity; real-vs-real on the full read script incl. statistics, and each vs Lean Spec; non-trivial = >=3 leaves with survivors"}
-	props["C18"] = &propDef{gen: genC18, rule: "DocsMatchingTerms on lists of 0-12 (field, term) pairs mixing known, unknown and empty field names, repeats and field switches; built, loaded, merged; non-trivial = list contains an unknown/empty field and the segment has documents"}
+	props["C18"] = &propDef{gen: genC18, alsoReuse: true, rule: "DocsMatchingTerms on lists of 0-12 (field, term) pairs mixing known, unknown and empty field names, repeats and field switches; built, loaded, merged; non-trivial = list contains an unknown/empty field and the segment has documents"}
 }
 
 func main() {
@@ -88,6 +88,31 @@ func cmdCheck(args []string) int {
 	e := newEngine(*prop, *tier, *seed, *model, *out)
 	e.rep.Rule = pd.rule
 	var vs []Violation
+	// the thorough tier repeats the whole leg with further seeds (VERIF_ROUNDS, default 6): memory
+	// stays bounded by one round, the exploration grows with the rounds
+	rounds := 1
+	if *tier == "thorough" {
+		rounds = 6
+		if *prop == "C12" {
+			rounds = 2 // exhaustive sweeps over every write offset: each round takes minutes
+		}
+		if v, err := strconv.Atoi(os.Getenv("VERIF_ROUNDS")); err == nil && v > 0 {
+			rounds = v
+		}
+	}
+	for round := 0; round < rounds && len(vs) == 0; round++ {
+		rseed := *seed + uint64(round)*1000003
+		e.seed = rseed
+		e.count("rounds", 1)
+		vs = append(vs, checkRound(e, pd, *tier, rseed)...)
+	}
+	e.seed = *seed
+	return e.finish(vs, start)
+}
+
+func checkRound(e *Engine, pd *propDef, tierV string, seedV uint64) []Violation {
+	tier, seed := &tierV, &seedV
+	var vs []Violation
 	if pd.gen != nil {
 		gos := pd.gen(*tier, *seed)
 		cases := make([]*Case, len(gos))
@@ -114,7 +139,7 @@ func cmdCheck(args []string) int {
 	if pd.extra != nil {
 		vs = append(vs, pd.extra(e)...)
 	}
-	return e.finish(vs, start)
+	return vs
 }
 
 // runSpecDiff: implementation vs specification, `same` pairs, then shrinking of failures.
